@@ -154,6 +154,35 @@ def value_job(job):
     return rec
 
 
+def cast_graph_row(job):
+    from .. import graphterm
+    ndx = impl.ndx
+    s, d = job
+    try:
+        a = ndx.array(shape=("N",), dtype=impl.dt(s))
+        out = ndx.astype(a, impl.dt(d))
+        return graphterm.sexpr(ndx.build({"a": a}, {"o": out}))
+    except Exception as e:
+        return f"!{type(e).__name__}"
+
+
+def cast_graph_tie(ctx):
+    """Tie B for casts inside the integer / boolean fragment: the exported graph of astype(x: s, d) must be one of
+    `Ndx.Graph.castTerms s d` (one Cast, or the input itself); Props/C14Graph.lean gives its value for every operand."""
+    frag = ["int8", "int16", "int32", "int64", "uint8", "uint16", "uint32", "uint64", "bool"]
+    jobs = [(s, d) for s in frag for d in frag]
+    got = tables.pmap(cast_graph_row, jobs, chunk=16, strict=True)
+    acc = common.model([f"gcast {s} {d}" for s, d in jobs])
+    ok = 0
+    for (s, d), g, a in zip(jobs, got, acc):
+        ctx.case(("cast-graph", s, d), s != d)
+        if a == "~" or g not in a.split(" || "):
+            ctx.corr_broken(f"cast-graph/{s}->{d}", {"exported_graph": g, "accepted_terms": a, "theorems": "Ndx.Graph.cast_int_int, cast_int_bool, cast_bool_int"})
+        else:
+            ok += 1
+    ctx.extra["cast_graph_tie"] = {"pairs": len(jobs), "matched": ok}
+
+
 def run(ctx: common.Ctx):
     ctx.extra["rule"] = (
         "astype outcome for all 24x24 ordered dtype pairs (lazy and eager) and can_cast for all 12x12 core pairs, "
@@ -247,4 +276,5 @@ end Gen.CastMatrix
         if not np.array_equal(np.ma.getdata(x.to_numpy()).astype(str), np.ma.getdata(before).astype(str)):
             ctx.violation(f"astype/{d}->{d}/shares-storage", f"astype({d} -> {d}) result shares storage with its argument", {"dtype": d})
     ctx.extra["source_values_cast"] = n_vals
+    cast_graph_tie(ctx)
     ctx.extra["exhaustive"] = True
